@@ -18,6 +18,25 @@ theorem Before.append_right {l : Cbs} {a b : Name} (h : Before l a b) (x : Cbs) 
 theorem Before.of_split {l x : Cbs} {a b : Name} (ha : a ∈ l.map (·.name)) (hb : b ∈ x.map (·.name)) :
     Before (l ++ x) a b := ⟨l, x, rfl, ha, hb⟩
 
+theorem nodup_of_map {α β} (f : α → β) {l : List α} (h : (l.map f).Nodup) : l.Nodup := by
+  induction l with
+  | nil => exact nodup_nil
+  | cons a l ih =>
+    simp only [map_cons, nodup_cons, mem_map, not_exists, not_and] at h ⊢
+    exact ⟨fun hm => h.1 a hm rfl, ih h.2⟩
+
+theorem inj_of_nodup_map {α β} {f : α → β} {l : List α} (h : (l.map f).Nodup) {x y : α}
+    (hx : x ∈ l) (hy : y ∈ l) (e : f x = f y) : x = y := by
+  induction l with
+  | nil => cases hx
+  | cons a l ih =>
+    simp only [map_cons, nodup_cons, mem_map, not_exists, not_and] at h
+    rcases mem_cons.mp hx with rfl | hx' <;> rcases mem_cons.mp hy with rfl | hy'
+    · rfl
+    · exact absurd e.symm (h.1 y hy')
+    · exact absurd e (h.1 x hx')
+    · exact ih h.2 hx' hy'
+
 /-- the `ord` parameter really is an enumeration of the set it is given -/
 def OrdOk (ord : Ord) : Prop := ∀ l, (ord l).Perm l
 
@@ -112,26 +131,143 @@ theorem tsort_sound {ord : Ord} (ho : OrdOk ord) {nodes : Cbs} (hn : nodes.Nodup
   refine ⟨hperm, fun e he ht => J.placed e he ?_⟩
   exact ((hperm.map _).mem_iff).mpr ht
 
-/-! ### names -/
+/-! ### completeness: a constraint set that admits an order is never rejected -/
 
-theorem nodup_of_map {α β} (f : α → β) {l : List α} (h : (l.map f).Nodup) : l.Nodup := by
-  induction l with
-  | nil => exact nodup_nil
-  | cons a l ih =>
-    simp only [map_cons, nodup_cons, mem_map, not_exists, not_and] at h ⊢
-    exact ⟨fun hm => h.1 a hm rfl, ih h.2⟩
+theorem inv_length_le {nodes : Cbs} {E0 : List Edge} {done : Cbs} {edges : List Edge}
+    (J : Inv nodes E0 done edges) : done.length ≤ nodes.length :=
+  (subperm_of_subset J.nodup (fun p hp => J.sub p hp)).length_le
 
-theorem inj_of_nodup_map {α β} {f : α → β} {l : List α} (h : (l.map f).Nodup) {x y : α}
-    (hx : x ∈ l) (hy : y ∈ l) (e : f x = f y) : x = y := by
-  induction l with
-  | nil => cases hx
-  | cons a l ih =>
-    simp only [map_cons, nodup_cons, mem_map, not_exists, not_and] at h
-    rcases mem_cons.mp hx with rfl | hx' <;> rcases mem_cons.mp hy with rfl | hy'
+theorem inv_full {nodes : Cbs} {E0 : List Edge} {done : Cbs} {edges : List Edge}
+    (J : Inv nodes E0 done edges) (h : nodes.length ≤ done.length) : ∀ p ∈ nodes, p ∈ done :=
+  fun _ hp => ((subperm_of_subset J.nodup (fun p hp => J.sub p hp)).perm_of_length_le h).mem_iff.mpr hp
+
+theorem firsts_nil_of_full {nodes done : Cbs} {edges : List Edge} (h : ∀ p ∈ nodes, p ∈ done) :
+    firsts nodes done edges = [] := by
+  apply eq_nil_iff_forall_not_mem.mpr
+  intro p hp
+  have := mem_firsts.mp hp
+  exact this.2.1 (h p this.1)
+
+/-- as long as a callback is unplaced and some order `L` satisfies all constraints, the next round
+is not empty: the earliest unplaced callback of `L` has all its predecessors placed -/
+theorem progress {nodes : Cbs} {E0 : List Edge} {done : Cbs} {edges : List Edge}
+    (J : Inv nodes E0 done edges) {L : Cbs} (hL : L.Perm nodes) (hLn : L.Nodup)
+    (hLnames : (L.map (·.name)).Nodup) (hresp : ∀ e ∈ E0, Before L e.1 e.2)
+    {p : Plugin} (hp : p ∈ nodes) (hpd : p ∉ done) : firsts nodes done edges ≠ [] := by
+  have hex : (L.find? fun q => !done.contains q).isSome := by
+    rw [find?_isSome]
+    exact ⟨p, hL.mem_iff.mpr hp, by simpa using hpd⟩
+  obtain ⟨m, hm⟩ := Option.isSome_iff_exists.mp hex
+  obtain ⟨hmd, as, bs, hsplit, has⟩ := find?_eq_some_iff_append.mp hm
+  have hmd' : m ∉ done := by simpa using hmd
+  have hmL : m ∈ L := by rw [hsplit]; simp
+  intro hnil
+  have : m ∈ firsts nodes done edges := by
+    refine mem_firsts.mpr ⟨hL.mem_iff.mp hmL, hmd', ?_⟩
+    intro e he heq
+    rw [J.edges_eq, mem_filter] at he
+    obtain ⟨he0, hsrc⟩ := he
+    obtain ⟨l1, l2, hl, h1, h2⟩ := hresp e he0
+    obtain ⟨x, hx, hxn⟩ := mem_map.mp h1
+    obtain ⟨y, hy, hyn⟩ := mem_map.mp h2
+    have hyL : y ∈ L := by rw [hl]; exact mem_append.mpr (Or.inr hy)
+    have hym : y = m := inj_of_nodup_map hLnames hyL hmL (hyn.trans heq)
+    subst hym
+    have hnl1 : y ∉ l1 := by
+      intro hc
+      rw [hl] at hLn
+      exact (nodup_append.mp hLn).2.2 y hc y hy rfl
+    have hxas : x ∈ as := by
+      rw [hl] at hsplit
+      rcases append_eq_append_iff.mp hsplit with ⟨a', ha1, _⟩ | ⟨c', hc1, hc2⟩
+      · rw [ha1]; exact mem_append.mpr (Or.inl hx)
+      · cases c' with
+        | nil => simp only [append_nil] at hc1; rw [← hc1]; exact hx
+        | cons z zs =>
+          simp only [cons_append, cons.injEq] at hc2
+          exfalso
+          apply hnl1
+          rw [hc1, hc2.1]
+          simp
+    have hxd : x ∈ done := by simpa using has x hxas
+    have : (done.any fun p => p.name == e.1) = true := any_name_iff.mpr (mem_map.mpr ⟨x, hxd, hxn⟩)
+    rw [this] at hsrc
+    cases hsrc
+  rw [hnil] at this
+  cases this
+
+theorem rounds_complete {ord : Ord} (ho : OrdOk ord) {nodes : Cbs} (hn : nodes.Nodup) {E0 : List Edge}
+    {L : Cbs} (hL : L.Perm nodes) (hLnames : (L.map (·.name)).Nodup) (hresp : ∀ e ∈ E0, Before L e.1 e.2)
+    (fuel : Nat) {done : Cbs} {edges : List Edge} (J : Inv nodes E0 done edges)
+    (hf : nodes.length ≤ fuel + done.length) :
+    (rounds ord nodes fuel done edges).length = nodes.length := by
+  induction fuel generalizing done edges with
+  | zero =>
+    have := inv_length_le J
+    simp only [rounds]; omega
+  | succ n ih =>
+    unfold rounds
+    simp only
+    split
+    · rename_i hemp
+      have hnil : firsts nodes done edges = [] := by simpa using hemp
+      apply Nat.le_antisymm (inv_length_le J)
+      apply Classical.byContradiction
+      intro hlt
+      -- some callback is unplaced, so the round cannot be empty
+      have : ∃ p ∈ nodes, p ∉ done := by
+        apply Classical.byContradiction
+        intro hall
+        have hall' : ∀ p ∈ nodes, p ∈ done := by
+          intro p hp
+          apply Classical.byContradiction
+          intro hc
+          exact hall ⟨p, hp, hc⟩
+        have := (subperm_of_subset hn hall').length_le
+        omega
+      obtain ⟨p, hp, hpd⟩ := this
+      exact progress J hL (nodup_of_map _ hLnames) hLnames hresp hp hpd hnil
+    · rename_i hne
+      apply ih (inv_step ho hn J)
+      have hpos : 0 < (ord (firsts nodes done edges)).length := by
+        rw [(ho _).length_eq]
+        cases hfz : firsts nodes done edges with
+        | nil => rw [hfz] at hne; simp at hne
+        | cons a l => simp
+      simp only [length_append]
+      omega
+
+theorem rounds_extra_fuel {ord : Ord} (ho : OrdOk ord) {nodes : Cbs} (hn : nodes.Nodup) {E0 : List Edge}
+    (fuel k : Nat) {done : Cbs} {edges : List Edge} (J : Inv nodes E0 done edges)
+    (hf : nodes.length ≤ fuel + done.length) :
+    rounds ord nodes (fuel + k) done edges = rounds ord nodes fuel done edges := by
+  induction fuel generalizing done edges with
+  | zero =>
+    have hfull := inv_full J (by omega)
+    have hnil := firsts_nil_of_full (edges := edges) hfull
+    cases k with
+    | zero => rfl
+    | succ k =>
+      simp only [Nat.zero_add]
+      unfold rounds
+      simp [hnil]
+  | succ n ih =>
+    rw [show n + 1 + k = (n + k) + 1 by omega]
+    unfold rounds
+    simp only
+    split
     · rfl
-    · exact absurd e.symm (h.1 y hy')
-    · exact absurd e (h.1 x hx')
-    · exact ih h.2 hx' hy'
+    · rename_i hne
+      apply ih (inv_step ho hn J)
+      have hpos : 0 < (ord (firsts nodes done edges)).length := by
+        rw [(ho _).length_eq]
+        cases hfz : firsts nodes done edges with
+        | nil => rw [hfz] at hne; simp at hne
+        | cons a l => simp
+      simp only [length_append]
+      omega
+
+/-! ### names -/
 
 /-- registered names are unique up to case (what `getCallback` / `removeCallback` identify) -/
 def WF (cbs : Cbs) : Prop := (cbs.map fun p => lower p.name).Nodup
@@ -339,5 +475,352 @@ theorem addCallback_ok {ord : Ord} (ho : OrdOk ord) {cbs : Cbs} (hw : WF cbs) {p
     subst h
     have hs := tsort_sound ho (hw.snoc hg).nodup (edgesOf (cbs ++ [p])) (by simpa using hlen)
     exact ⟨hg, hs.1, fun e he => hs.2 e he (edge_endpoints he).2⟩
+
+/-! ### lookups under permutation and removal -/
+
+theorem lower_inj_on {cbs : Cbs} (h : WF cbs) {x y : Plugin} (hx : x ∈ cbs) (hy : y ∈ cbs)
+    (e : lower x.name = lower y.name) : x = y :=
+  inj_of_nodup_map (f := fun (p : Plugin) => lower p.name) (show (cbs.map fun p => lower p.name).Nodup from h) hx hy e
+
+theorem getCallback_unique {cbs : Cbs} (h : WF cbs) {q : Plugin} {n : Name} (hq : q ∈ cbs)
+    (hn : lower q.name = lower n) : getCallback cbs n = some q := by
+  cases hg : getCallback cbs n with
+  | none => exact absurd hn (getCallback_none_iff.mp hg q hq)
+  | some q' =>
+    obtain ⟨hm, hl⟩ := getCallback_mem hg
+    rw [lower_inj_on h hm hq (hl.trans hn.symm)]
+
+theorem getCallback_perm {a b : Cbs} (h : WF a) (p : b.Perm a) (n : Name) :
+    getCallback b n = getCallback a n := by
+  cases hg : getCallback a n with
+  | none =>
+    exact getCallback_none_iff.mpr fun q hq => getCallback_none_iff.mp hg q (p.mem_iff.mp hq)
+  | some q =>
+    obtain ⟨hm, hl⟩ := getCallback_mem hg
+    exact getCallback_unique (h.perm p) (p.mem_iff.mpr hm) hl
+
+theorem WF.filter {cbs : Cbs} (h : WF cbs) (k : Plugin → Bool) : WF (cbs.filter k) := by
+  unfold WF at *
+  exact (h.sublist ((filter_sublist).map _))
+
+theorem getCallback_filter {cbs : Cbs} (h : WF cbs) (k : Plugin → Bool) {n : Name} {q : Plugin}
+    (hg : getCallback (cbs.filter k) n = some q) : getCallback cbs n = some q ∧ k q = true := by
+  obtain ⟨hm, hl⟩ := getCallback_mem hg
+  obtain ⟨hm', hk⟩ := mem_filter.mp hm
+  exact ⟨getCallback_unique h hm' hl, hk⟩
+
+theorem getCallback_filter_keep {cbs : Cbs} (h : WF cbs) (k : Plugin → Bool) {n : Name} {q : Plugin}
+    (hg : getCallback cbs n = some q) (hk : k q = true) : getCallback (cbs.filter k) n = some q := by
+  obtain ⟨hm, hl⟩ := getCallback_mem hg
+  exact getCallback_unique (h.filter k) (mem_filter.mpr ⟨hm, hk⟩) hl
+
+theorem filterMap_getCallback_perm {a b : Cbs} (h : WF a) (p : b.Perm a) (ns : List Name) :
+    ns.filterMap (getCallback b) = ns.filterMap (getCallback a) := by
+  have : getCallback b = getCallback a := funext (getCallback_perm h p)
+  rw [this]
+
+theorem precedence_perm {a b : Cbs} (h : WF a) (hp : b.Perm a) (p : Plugin) (x : Name) :
+    (x ∈ (precedence b p).1 ↔ x ∈ (precedence a p).1) ∧ (x ∈ (precedence b p).2 ↔ x ∈ (precedence a p).2) := by
+  unfold precedence
+  cases p.kind with
+  | owner =>
+    simp only [not_mem_nil, true_and]
+    exact ((hp.filter _).map _).mem_iff
+  | misc =>
+    simp only [not_mem_nil, and_true]
+    exact ((hp.filter _).map _).mem_iff
+  | plain =>
+    have e : getCallback b = getCallback a := funext (getCallback_perm h hp)
+    rw [e]
+    exact ⟨Iff.rfl, Iff.rfl⟩
+
+theorem edgesOf_perm {a b : Cbs} (h : WF a) (hp : b.Perm a) (e : Edge) : e ∈ edgesOf b ↔ e ∈ edgesOf a := by
+  rw [mem_edgesOf, mem_edgesOf]
+  constructor
+  · rintro ⟨p, hpm, h1 | h1⟩
+    · obtain ⟨o, ho, rfl⟩ := h1
+      exact ⟨p, hp.mem_iff.mp hpm, Or.inl ⟨o, (precedence_perm h hp p o).1.mp ho, rfl⟩⟩
+    · obtain ⟨o, ho, rfl⟩ := h1
+      exact ⟨p, hp.mem_iff.mp hpm, Or.inr ⟨o, (precedence_perm h hp p o).2.mp ho, rfl⟩⟩
+  · rintro ⟨p, hpm, h1 | h1⟩
+    · obtain ⟨o, ho, rfl⟩ := h1
+      exact ⟨p, hp.mem_iff.mpr hpm, Or.inl ⟨o, (precedence_perm h hp p o).1.mpr ho, rfl⟩⟩
+    · obtain ⟨o, ho, rfl⟩ := h1
+      exact ⟨p, hp.mem_iff.mpr hpm, Or.inr ⟨o, (precedence_perm h hp p o).2.mpr ho, rfl⟩⟩
+
+theorem resolved_filter {cbs : Cbs} (h : WF cbs) (k : Plugin → Bool) {ns : List Name} {x : Name}
+    (hx : x ∈ (ns.filterMap (getCallback (cbs.filter k))).map (·.name)) :
+    x ∈ (ns.filterMap (getCallback cbs)).map (·.name) := by
+  obtain ⟨n, hn, q, hg, rfl⟩ := mem_resolved hx
+  exact mem_map.mpr ⟨q, mem_filterMap.mpr ⟨n, hn, (getCallback_filter h k hg).1⟩, rfl⟩
+
+theorem resolved_self_keep {cbs : Cbs} (h : WF cbs) (k : Plugin → Bool) {ns : List Name} {p : Plugin}
+    (hp : p ∈ cbs) (hk : k p = true) (hx : p.name ∈ (ns.filterMap (getCallback cbs)).map (·.name)) :
+    p.name ∈ (ns.filterMap (getCallback (cbs.filter k))).map (·.name) := by
+  obtain ⟨n, hn, q, hg, hq⟩ := mem_resolved hx
+  have : q = p := h.eq_of_name (getCallback_mem hg).1 hp hq
+  subst this
+  exact mem_map.mpr ⟨q, mem_filterMap.mpr ⟨n, hn, getCallback_filter_keep h k hg hk⟩, rfl⟩
+
+/-- removing callbacks never creates a constraint: what a remaining callback's `callPrecedence`
+returns afterwards, it returned before -/
+theorem precedence_filter {cbs : Cbs} (h : WF cbs) (k : Plugin → Bool) {p : Plugin} (hp : p ∈ cbs)
+    (hk : k p = true) (x : Name) :
+    (x ∈ (precedence (cbs.filter k) p).1 → x ∈ (precedence cbs p).1) ∧
+    (x ∈ (precedence (cbs.filter k) p).2 → x ∈ (precedence cbs p).2) := by
+  unfold precedence
+  cases p.kind with
+  | owner =>
+    simp only [not_mem_nil, false_imp_iff, true_and]
+    intro hx
+    obtain ⟨q, hq, rfl⟩ := mem_map.mp hx
+    obtain ⟨hq1, hq2⟩ := mem_filter.mp hq
+    exact mem_map.mpr ⟨q, mem_filter.mpr ⟨(mem_filter.mp hq1).1, hq2⟩, rfl⟩
+  | misc =>
+    simp only [not_mem_nil, false_imp_iff, and_true]
+    intro hx
+    obtain ⟨q, hq, rfl⟩ := mem_map.mp hx
+    obtain ⟨hq1, hq2⟩ := mem_filter.mp hq
+    exact mem_map.mpr ⟨q, mem_filter.mpr ⟨(mem_filter.mp hq1).1, hq2⟩, rfl⟩
+  | plain =>
+    simp only
+    by_cases hs : ((p.callBefore.filterMap (getCallback (cbs.filter k))).map (·.name)).contains p.name ||
+        ((p.callAfter.filterMap (getCallback (cbs.filter k))).map (·.name)).contains p.name
+    · rw [if_pos hs]; simp
+    · rw [if_neg hs]
+      have hs' : ¬ (((p.callBefore.filterMap (getCallback cbs)).map (·.name)).contains p.name ||
+          ((p.callAfter.filterMap (getCallback cbs)).map (·.name)).contains p.name) = true := by
+        intro hc
+        apply hs
+        simp only [Bool.or_eq_true, contains_eq_mem, decide_eq_true_eq] at hc ⊢
+        rcases hc with hc | hc
+        · exact Or.inl (resolved_self_keep h k hp hk hc)
+        · exact Or.inr (resolved_self_keep h k hp hk hc)
+      rw [if_neg hs']
+      exact ⟨resolved_filter h k, resolved_filter h k⟩
+
+theorem edgesOf_filter {cbs : Cbs} (h : WF cbs) (k : Plugin → Bool) {e : Edge}
+    (he : e ∈ edgesOf (cbs.filter k)) : e ∈ edgesOf cbs := by
+  obtain ⟨p, hpm, h1⟩ := mem_edgesOf.mp he
+  obtain ⟨hp, hk⟩ := mem_filter.mp hpm
+  refine mem_edgesOf.mpr ⟨p, hp, ?_⟩
+  rcases h1 with ⟨o, ho, rfl⟩ | ⟨o, ho, rfl⟩
+  · exact Or.inl ⟨o, (precedence_filter h k hp hk o).1 ho, rfl⟩
+  · exact Or.inr ⟨o, (precedence_filter h k hp hk o).2 ho, rfl⟩
+
+theorem Before.filter {l : Cbs} (hn : (l.map (·.name)).Nodup) (k : Plugin → Bool) {a b : Name}
+    (h : Before l a b) (ha : a ∈ (l.filter k).map (·.name)) (hb : b ∈ (l.filter k).map (·.name)) :
+    Before (l.filter k) a b := by
+  obtain ⟨l1, l2, rfl, h1, h2⟩ := h
+  refine ⟨l1.filter k, l2.filter k, filter_append .., ?_, ?_⟩
+  · obtain ⟨x, hx, rfl⟩ := mem_map.mp h1
+    obtain ⟨y, hy, hxy⟩ := mem_map.mp ha
+    obtain ⟨hy1, hy2⟩ := mem_filter.mp hy
+    have : y = x := inj_of_nodup_map hn hy1 (mem_append.mpr (Or.inl hx)) hxy
+    subst this
+    exact mem_map.mpr ⟨y, mem_filter.mpr ⟨hx, hy2⟩, rfl⟩
+  · obtain ⟨x, hx, rfl⟩ := mem_map.mp h2
+    obtain ⟨y, hy, hxy⟩ := mem_map.mp hb
+    obtain ⟨hy1, hy2⟩ := mem_filter.mp hy
+    have : y = x := inj_of_nodup_map hn hy1 (mem_append.mpr (Or.inr hx)) hxy
+    subst this
+    exact mem_map.mpr ⟨y, mem_filter.mpr ⟨hx, hy2⟩, rfl⟩
+
+/-! ### the invariant of the dispatcher list -/
+
+/-- names unique up to case, and every constraint the registered callbacks resolve is satisfied -/
+structure Good (cbs : Cbs) : Prop where
+  wf : WF cbs
+  resp : Respects cbs (edgesOf cbs)
+
+theorem Good.filter {cbs : Cbs} (g : Good cbs) (k : Plugin → Bool) : Good (cbs.filter k) := by
+  refine ⟨g.wf.filter k, fun e he => ?_⟩
+  have hends := edge_endpoints he
+  exact (g.resp e (edgesOf_filter g.wf k he)).filter g.wf.names_nodup k hends.1 hends.2
+
+theorem Good.add {ord : Ord} (ho : OrdOk ord) {cbs : Cbs} (g : Good cbs) {p : Plugin} {r : Cbs}
+    (h : addCallback ord cbs p = .ok r) : Good r := by
+  obtain ⟨hg, hp, hr⟩ := addCallback_ok ho g.wf h
+  have hw := g.wf.snoc hg
+  exact ⟨hw.perm hp, fun e he => hr e ((edgesOf_perm hw hp e).mp he)⟩
+
+theorem Good.owner_first {cbs : Cbs} (g : Good cbs) {o : Plugin} (ho : o ∈ cbs) (hk : o.kind = .owner) :
+    cbs.head? = some o :=
+  first_of_edges g.wf ho fun _ hq hne => g.resp _ (owner_edges ho hk hq hne)
+
+theorem Good.misc_last {cbs : Cbs} (g : Good cbs) {m : Plugin} (hm : m ∈ cbs) (hk : m.kind = .misc) :
+    cbs.getLast? = some m :=
+  last_of_edges g.wf hm fun _ hq hne => g.resp _ (misc_edges hm hk hq hne)
+
+/-! ### Owner's commands preserve the invariant -/
+
+/-- the list an `addCallback` / re-add attempt leaves behind, successful or not -/
+def resultCbs : Except (Err × Cbs) Cbs → Cbs
+  | .ok c => c
+  | .error e => e.2
+
+theorem addCallback_result_good {ord : Ord} (ho : OrdOk ord) {cbs : Cbs} (g : Good cbs) (p : Plugin) :
+    Good (resultCbs (addCallback ord cbs p)) := by
+  cases h : addCallback ord cbs p with
+  | ok r => exact g.add ho h
+  | error e => obtain ⟨er, c'⟩ := e; rw [show resultCbs (.error (er, c')) = c' from rfl, addCallback_error h]; exact g
+
+theorem addCallback_result_mem {ord : Ord} (ho : OrdOk ord) {cbs : Cbs} (hw : WF cbs) (p : Plugin)
+    {q : Plugin} (hq : q ∈ cbs) : q ∈ resultCbs (addCallback ord cbs p) := by
+  cases h : addCallback ord cbs p with
+  | ok r =>
+    obtain ⟨_, hp, _⟩ := addCallback_ok ho hw h
+    exact hp.mem_iff.mpr (mem_append.mpr (Or.inl hq))
+  | error e => obtain ⟨er, c'⟩ := e; rw [show resultCbs (.error (er, c')) = c' from rfl, addCallback_error h]; exact hq
+
+theorem readd_result {ord : Ord} (ho : OrdOk ord) (ps : List Plugin) {cbs : Cbs} (g : Good cbs) :
+    Good (resultCbs (readd ord cbs ps)) ∧ ∀ q ∈ cbs, q ∈ resultCbs (readd ord cbs ps) := by
+  induction ps generalizing cbs with
+  | nil => exact ⟨g, fun _ h => h⟩
+  | cons p ps ih =>
+    unfold readd
+    cases h : addCallback ord cbs p with
+    | error e =>
+      obtain ⟨er, c'⟩ := e
+      have := addCallback_error h
+      subst this
+      exact ⟨g, fun _ hq => hq⟩
+    | ok r =>
+      have gr := g.add ho h
+      obtain ⟨i1, i2⟩ := ih gr
+      refine ⟨i1, fun q hq => i2 q ?_⟩
+      have := addCallback_result_mem ho g.wf p hq
+      rw [h] at this
+      exact this
+
+theorem load_good {ord : Ord} (ho : OrdOk ord) {cbs : Cbs} (g : Good cbs) (name : Name)
+    (avail : Option Plugin) (f : Faults) :
+    Good (load ord cbs name avail f).2 ∧ ∀ q ∈ cbs, q ∈ (load ord cbs name avail f).2 := by
+  unfold load
+  simp only
+  split
+  · exact ⟨g, fun _ h => h⟩
+  · split
+    · exact ⟨g, fun _ h => h⟩
+    · split
+      · exact ⟨g, fun _ h => h⟩
+      · split
+        · exact ⟨g, fun _ h => h⟩
+        · split
+          · exact ⟨g, fun _ h => h⟩
+          · rename_i p _ _ _
+            have h1 := addCallback_result_good ho g p
+            have h2 := fun q (hq : q ∈ cbs) => addCallback_result_mem ho g.wf p hq
+            split
+            · rename_i e c' he
+              rw [he] at h1 h2
+              exact ⟨h1, h2⟩
+            · rename_i c' he
+              rw [he] at h1 h2
+              exact ⟨h1, h2⟩
+
+/-- a callback survives the removal of `n` unless `n` is its own name up to case -/
+theorem mem_removed {cbs : Cbs} {n : Name} {q : Plugin} (hq : q ∈ cbs) (hne : lower q.name ≠ lower n) :
+    q ∈ (removeCallback cbs n).2 := by
+  unfold removeCallback
+  exact mem_filter.mpr ⟨hq, by simpa using hne⟩
+
+theorem unload_good {cbs : Cbs} (g : Good cbs) (name : Name) (f : Faults) :
+    Good (unload cbs name f).2 ∧
+    ∀ q ∈ cbs, lower q.name ≠ lower name → q ∈ (unload cbs name f).2 := by
+  unfold unload
+  split
+  · exact ⟨g, fun _ h _ => h⟩
+  · split
+    · exact ⟨g, fun _ h _ => h⟩
+    · rename_i old hold
+      have hl := (getCallback_mem hold).2
+      have gf : Good (removeCallback cbs old.name).2 := g.filter _
+      have hm : ∀ q ∈ cbs, lower q.name ≠ lower name → q ∈ (removeCallback cbs old.name).2 :=
+        fun q hq hne => mem_removed hq (by rw [hl]; exact hne)
+      simp only
+      split <;> exact ⟨gf, hm⟩
+
+theorem reload_good {ord : Ord} (ho : OrdOk ord) {cbs : Cbs} (g : Good cbs) (name : Name)
+    (avail : Option Plugin) (f : Faults) :
+    Good (reload ord cbs name avail f).2 ∧
+    ∀ q ∈ cbs, lower q.name ≠ lower name → q ∈ (reload ord cbs name avail f).2 := by
+  have gf : Good (removeCallback cbs name).2 := g.filter _
+  have hm : ∀ q ∈ cbs, lower q.name ≠ lower name → q ∈ (removeCallback cbs name).2 :=
+    fun q hq hne => mem_removed hq hne
+  have hreadd : Good (resultCbs (readd ord (removeCallback cbs name).2 (removeCallback cbs name).1)) ∧
+      ∀ q ∈ cbs, lower q.name ≠ lower name →
+        q ∈ resultCbs (readd ord (removeCallback cbs name).2 (removeCallback cbs name).1) := by
+    have hr := readd_result ho (removeCallback cbs name).1 gf
+    exact ⟨hr.1, fun q hq hne => hr.2 q (hm q hq hne)⟩
+  unfold reload
+  by_cases h0 : isOwnerName name = true
+  · rw [if_pos h0]; exact ⟨g, fun _ h _ => h⟩
+  · rw [if_neg h0]
+    simp only
+    by_cases h1 : (removeCallback cbs name).1.isEmpty = true
+    · rw [if_pos h1]; exact ⟨gf, hm⟩
+    · rw [if_neg h1]
+      by_cases h2 : (f.importError || avail.isNone) = true
+      · rw [if_pos h2]
+        cases he : readd ord (removeCallback cbs name).2 (removeCallback cbs name).1 with
+        | ok c' => rw [he] at hreadd; exact hreadd
+        | error e => obtain ⟨er, c'⟩ := e; rw [he] at hreadd; exact hreadd
+      · rw [if_neg h2]
+        by_cases h3 : f.importOther = true
+        · rw [if_pos h3]; exact ⟨gf, hm⟩
+        · rw [if_neg h3]
+          by_cases h4 : f.ctorRaises = true
+          · rw [if_pos h4]; exact ⟨gf, hm⟩
+          · rw [if_neg h4]
+            cases avail with
+            | none => exact ⟨gf, hm⟩
+            | some p =>
+              have h5 := addCallback_result_good ho gf p
+              have h6 := fun q (hq : q ∈ (removeCallback cbs name).2) => addCallback_result_mem ho gf.wf p hq
+              cases he : addCallback ord (removeCallback cbs name).2 p with
+              | ok c' => rw [he] at h5 h6; simp only [he]; exact ⟨h5, fun q hq hne => h6 q (hm q hq hne)⟩
+              | error e =>
+                obtain ⟨er, c'⟩ := e
+                rw [he] at h5 h6
+                simp only [he]
+                exact ⟨h5, fun q hq hne => h6 q (hm q hq hne)⟩
+
+/-! ### reload with an ImportError puts the old callback back -/
+
+theorem filter_match_le_one {cbs : Cbs} (h : WF cbs) (n : Name) :
+    (cbs.filter fun p => lower p.name == lower n).length ≤ 1 := by
+  induction cbs with
+  | nil => simp
+  | cons a l ih =>
+    have hw : WF l := by unfold WF at h ⊢; exact (nodup_cons.mp h).2
+    have hni : lower a.name ∉ l.map fun p => lower p.name := by unfold WF at h; exact (nodup_cons.mp h).1
+    rw [filter_cons]
+    split
+    · rename_i hm
+      have hm' : lower a.name = lower n := by simpa using hm
+      have : (l.filter fun p => lower p.name == lower n) = [] := by
+        apply filter_eq_nil_iff.mpr
+        intro q hq hc
+        have hc' : lower q.name = lower n := by simpa using hc
+        exact hni (mem_map.mpr ⟨q, hq, hc'.trans hm'.symm⟩)
+      simp [this]
+    · exact ih hw
+
+theorem removeCallback_perm (cbs : Cbs) (n : Name) :
+    ((removeCallback cbs n).2 ++ (removeCallback cbs n).1).Perm cbs := by
+  unfold removeCallback
+  exact (perm_append_comm).trans (filter_append_perm _ _)
+
+theorem removed_singleton {cbs : Cbs} (h : WF cbs) {n : Name} {q : Plugin} (hq : getCallback cbs n = some q) :
+    (removeCallback cbs n).1 = [q] := by
+  obtain ⟨hqm, hql⟩ := getCallback_mem hq
+  have hle := filter_match_le_one h n
+  have hmem : q ∈ cbs.filter fun p => lower p.name == lower n := mem_filter.mpr ⟨hqm, by simpa using hql⟩
+  show (cbs.filter fun p => lower p.name == lower n) = [q]
+  generalize (cbs.filter fun p => lower p.name == lower n) = F at hle hmem
+  match F, hle, hmem with
+  | [x], _, hm => simp at hm; rw [hm]
+  | _ :: _ :: _, hl, _ => simp at hl
 
 end C20
